@@ -215,6 +215,10 @@ def delete_sources(ctx, F, rid):
                             ok = True
         n += 1
         top = b.path.split('::{')[0].split('::')[-1]
+        if not ok and c.split('::')[-1] == 'remove_dir':
+            # rmdir removes an EMPTY directory or fails: no file - excluded or not - can go with it
+            ctx.ok(rid, '%s:remove_dir(empty only)' % top, 'a non-recursive remove_dir cannot remove a file', term_loc(b, bb))
+            continue
         if not ok and removes_own_staging(F, b, t['args'][0]):
             ctx.ok(rid, '%s:remove_file(own staging file)' % top, 'removes the file this staging handle created (clean-up, not a delete of the plan)', term_loc(b, bb))
             continue
